@@ -61,4 +61,22 @@ def distPeer {σ} (P : Peer σ) (at_ : Nat) (kind : Kind) : Peer (σ × DState) 
       | .staleBetween f => ((p', { idx := d.idx + 1, pending := [] }), pre ++ [f] ++ rs)
     else ((p', { idx := d.idx + 1, pending := [] }), pre ++ rs)
 
+/-- a schedule of simple disturbances, one decision per request index (any number of them) -/
+inductive SKind where
+  | pass
+  | lost
+  | dup
+  | abort (code : Nat)
+deriving Repr
+
+def schedPeer {σ} (P : Peer σ) (sched : Nat → SKind) : Peer (σ × Nat) :=
+  fun (p, i) req =>
+    let (p', rs) := P p req
+    ((p', i + 1),
+      match sched i with
+      | .pass => rs
+      | .lost => []
+      | .dup => rs ++ rs
+      | .abort code => [[0x80, 0, 0, 0] ++ leBytes 4 code])
+
 end Canopen.Sdo
